@@ -16,7 +16,7 @@ import ast
 from sa import AnalysisError
 from sa.astutil import dotted, src, stmt_text, params, find_stmts, calls_in, method_name, walk_no_nested, const
 from sa.paths import PathEnumerator, Event
-from sa.guards import facts_at, enclosing_conditions
+from sa.guards import facts_at, enclosing_conditions, decompose
 
 
 # --------------------------------------------------------------------------- R16.1
@@ -77,8 +77,61 @@ def _ordinal(seq, item):
 
 # --------------------------------------------------------------------------- R16.2
 
+def _wait_all(f):
+    """The construct of _fork that waits for EVERY recorded child and derives the failure indicator from the results:
+    (statement, indicator name) or (None, reason).  Understood spellings
+      N = sum(not _wait(p) for p in child_pids)          (generator or list; fully consumed, no short circuit)
+      N = len([p for p in child_pids if not _wait(p)])
+      N = 0 ... for p in child_pids: if not _wait(p): N += 1      (or N += not _wait(p)); no break/continue/return in the loop"""
+    waits = [c for c in calls_in(f.node) if src(c.func) == '_wait']
+    if len(waits) != 1:
+        return None, f'{len(waits)} calls of _wait'
+    w = waits[0]
+
+    def is_not_wait(e, var):
+        return isinstance(e, ast.UnaryOp) and isinstance(e.op, ast.Not) and e.operand is w and len(w.args) == 1 and src(w.args[0]) == var and not w.keywords
+    for st in find_stmts(f.body, lambda x: isinstance(x, ast.Assign)):
+        if not any(x is w for x in ast.walk(st)) or len(st.targets) != 1 or not isinstance(st.targets[0], ast.Name) or not isinstance(st.value, ast.Call) or len(st.value.args) != 1:
+            continue
+        g = st.value.args[0]
+        if not isinstance(g, (ast.GeneratorExp, ast.ListComp)) or len(g.generators) != 1 or src(g.generators[0].iter) != 'child_pids' or not isinstance(g.generators[0].target, ast.Name):
+            return None, 'the results of _wait are not collected over child_pids'
+        var = g.generators[0].target.id
+        fn_ = src(st.value.func)
+        if fn_ in ('sum', 'builtins.sum') and not g.generators[0].ifs and is_not_wait(g.elt, var):
+            return st, st.targets[0].id
+        if fn_ == 'len' and isinstance(g, ast.ListComp) and len(g.generators[0].ifs) == 1 and is_not_wait(g.generators[0].ifs[0], var):
+            return st, st.targets[0].id
+        return None, f'`{src(st.value)[:80]}` does not count `not _wait(pid)` over every child (a short-circuiting any/all stops waiting at the first failure)'
+    for lp in find_stmts(f.body, lambda x: isinstance(x, ast.For)):
+        if not any(x is w for x in ast.walk(lp)):
+            continue
+        if src(lp.iter) != 'child_pids' or not isinstance(lp.target, ast.Name) or lp.orelse:
+            return None, 'the loop that waits does not run over child_pids'
+        if any(isinstance(x, (ast.Break, ast.Continue, ast.Return, ast.Raise)) for x in ast.walk(lp)):
+            return None, 'the loop that waits can be left before every child has been waited for'
+        var = lp.target.id
+        if len(lp.body) != 1:
+            return None, 'the waiting loop does more than count failures'
+        b = lp.body[0]
+        name = None
+        if isinstance(b, ast.If) and is_not_wait(b.test, var) and not b.orelse and len(b.body) == 1 and isinstance(b.body[0], ast.AugAssign) \
+                and isinstance(b.body[0].op, ast.Add) and isinstance(b.body[0].target, ast.Name) and isinstance(const(b.body[0].value), int) and const(b.body[0].value) > 0:
+            name = b.body[0].target.id
+        elif isinstance(b, ast.AugAssign) and isinstance(b.op, (ast.Add, ast.BitOr)) and isinstance(b.target, ast.Name) and is_not_wait(b.value, var):
+            name = b.target.id
+        if name is None:
+            return None, 'the waiting loop does not count `not _wait(pid)`'
+        inits = [a for a in find_stmts(f.body, lambda x: isinstance(x, ast.Assign)) if any(isinstance(t, ast.Name) and t.id == name for t in a.targets)]
+        if len(inits) != 1 or const(inits[0].value) not in (0, False) or inits[0].lineno > lp.lineno:
+            return None, f'the failure counter `{name}` does not start at 0 before the loop'
+        return lp, name
+    return None, 'no construct that waits for every child'
+
+
 def check_fork(model, rep):
     f = model.func('parallel:_fork')
+    wait_stmt, wait_ind = _wait_all(f)
 
     def on_stmt(s, st):
         evs = []
@@ -89,8 +142,8 @@ def check_fork(model, rep):
                     evs.append(Event('FORK', s))
                 elif n == 'os.kill':
                     evs.append(Event('KILL', s, [src(a) for a in c.args]))
-                elif n == '_wait':
-                    evs.append(Event('WAIT', s))
+        if wait_stmt is not None and getattr(s, '_owner', s) is wait_stmt:
+            evs.append(Event('WAIT', s))    # the construct that waits for every child (a loop counts from its header on: without children there is nothing to wait for)
         if isinstance(s, ast.Expr) and isinstance(s.value, ast.Yield):
             evs.append(Event('YIELD', s))
         return evs
@@ -154,18 +207,17 @@ def check_fork(model, rep):
     bad = [p for p in ps if not any(e.kind == 'WAIT' for e in p.events)]
     rep.ob('R16.2', f.key, f.where(), not bad, 'the parent waits for its children before leaving the region' if not bad else
            'the parent can leave the parallel region without waiting for the children: results are read before they are written', statement='parent-waits')
-    waits = [c for c in calls_in(f.node) if src(c.func) == '_wait']
-    ok = len(waits) == 1
-    if ok:
-        gen = next((g for g in ast.walk(f.node) if isinstance(g, ast.GeneratorExp) and any(x is waits[0] for x in ast.walk(g))), None)
-        ok = gen is not None and src(gen.generators[0].iter) == 'child_pids' and src(gen.elt).replace(' ', '') == f'not_wait({src(gen.generators[0].target)})'.replace('not', 'not ').replace(' ', '')
-    rep.ob('R16.2', f.key, f.where(), ok, 'failures are counted as `not _wait(pid)` over every child' if ok else 'the failure count is not sum(not _wait(pid) for pid in child_pids)', statement='count-failures')
+    ok = wait_stmt is not None
+    rep.ob('R16.2', f.key, f.where(wait_stmt) if ok else f.where(), ok, f'failures are counted as `not _wait(pid)` over every child into `{wait_ind}`' if ok else f'the failure count is not the number of `not _wait(pid)` over every pid in child_pids: {wait_ind}', statement='count-failures')
     bad = []
     for p in ps:
-        conds = [e for e in p.events if e.kind == 'cond' and src(e.node) == 'nfails']
+        iw = p.index(lambda e: e.kind == 'WAIT')
+        pos = {f'{wait_ind}': True, f'{wait_ind} > 0': True, f'{wait_ind} != 0': True, f'{wait_ind} >= 1': True, f'0 < {wait_ind}': True,
+               f'not {wait_ind}': False, f'{wait_ind} == 0': False}
+        conds = [e for e in p.events[max(iw, 0):] if e.kind == 'cond' and src(e.node) in pos and not isinstance(getattr(e.node, '_owner', None), ast.For)]
         if not conds:
             bad.append(p)
-        elif conds[-1].data[0] and p.end != 'raise':
+        elif conds[-1].data[0] == pos[src(conds[-1].node)] and p.end != 'raise':
             bad.append(p)
     rep.ob('R16.2', f.key, f.where(), not bad, 'a failed child makes the parent raise' if not bad else
            'the parent returns normally although a child failed: a partial result is handed out', statement='raise-on-child-failure')
@@ -238,14 +290,29 @@ def check_builder(model, rep):
                     continue
                 # resolve receiver: self._block_for(args) directly or a local assigned from it on every branch
                 covers = None
-                if isinstance(recv, ast.Call) and src(recv.func) == 'self._block_for':
-                    covers = [{src(a) for a in recv.args}]
+
+                def branches(e, cs=()):
+                    # self._block_for(...) calls an expression may evaluate to, with the conditions under which it does (conditional expressions)
+                    if isinstance(e, ast.IfExp):
+                        t = tuple((src(a), v) for a, v in decompose(e.test, True)), tuple((src(a), v) for a, v in decompose(e.test, False))
+                        l, r = branches(e.body, cs + t[0]), branches(e.orelse, cs + t[1])
+                        return None if l is None or r is None else l + r
+                    if isinstance(e, ast.Call) and src(e.func) == 'self._block_for':
+                        return [({src(a) for a in e.args}, cs)]
+                    return None
+                direct = branches(recv)
+                if direct is not None:
+                    covers = [c_ for c_, _ in direct]
+                    defconds = [cs for _, cs in direct]
                 elif isinstance(recv, ast.Name):
                     defs = [s for s in find_stmts(f.body, lambda s: isinstance(s, ast.Assign)) if src(s.targets[0]) == recv.id]
-                    if defs and all(isinstance(d.value, ast.Call) and src(d.value.func) == 'self._block_for' for d in defs):
-                        covers = [{src(a) for a in d.value.args} for d in defs]
+                    if defs and all(branches(d.value) is not None for d in defs):
                         conds = enclosing_conditions(f.node)
-                        defconds = [conds.get(id(d), ()) for d in defs]
+                        covers, defconds = [], []
+                        for d in defs:
+                            for c_, cs in branches(d.value):
+                                covers.append(c_)
+                                defconds.append(tuple(conds.get(id(d), ())) + cs)
                 if kind == 'If':
                     # allowed on self._block when the condition was pre-evaluated under _needs_lock
                     pre = [s for s in find_stmts(f.body, lambda s: isinstance(s, ast.If)) if src(s.test) == f'self._needs_lock({exprs[0]})']
@@ -265,7 +332,7 @@ def check_builder(model, rep):
                     if missing:
                         # the only licensed omission: the bare-Variable lhs of an assignment
                         if kind == 'Assign' and missing == [exprs[0]]:
-                            cs = defconds[i] if isinstance(recv, ast.Name) else ()
+                            cs = defconds[i]
                             if (f'isinstance({exprs[0]}, _pyast.Variable)', True) in cs:
                                 continue
                         missing_all.append(missing)
